@@ -18,6 +18,7 @@ logging.disable(logging.CRITICAL)
 
 TAGS = [0, 1, 2, 6, 9, 10, 15, 16, 18, 22]
 ENTRIES = ["payload", "payload", "dlms", "hdlc", "p1"]
+ENTRIES_ALL = ["payload", "dlms", "hdlc", "p1"]
 
 
 class _Inconclusive(BaseException):
@@ -153,6 +154,8 @@ def _oracle(case) -> Info:
         nt = isinstance(res, dict) or _some_grammar_parses(payload)
         if nt:
             classes.append("mutant-still-parsed-by-a-grammar")
+    elif tag in ("nested", "digit-run"):
+        nt = True
     elif tag in ("ascii", "ascii-long"):
         nt = b"(" in payload or b")" in payload
     return Info(nontrivial=nt, classes=tuple(classes))
@@ -228,9 +231,26 @@ _ascii_tok = st.sampled_from(
 ) | st.text(alphabet="0123456789.()*-:kWhVA \r\n", max_size=8)
 
 
+def nested(depth: int, shape: int, leaf: bytes, obis_octets: bytes) -> bytes:
+    """A chain of COSEM structures/arrays nested `depth` levels deep (legal encoding, absurd content)."""
+    body = leaf
+    for _ in range(depth):
+        if shape == 0:  # structure { obis, <next level>, integer }
+            body = bytes([2, 3, 9, 6]) + obis_octets + body + bytes([15, 0])
+        elif shape == 1:  # structure { <next level> }
+            body = bytes([2, 1]) + body
+        elif shape == 2:  # array [ <next level>, <next level> ] would double the size: array of one
+            body = bytes([1, 1]) + body
+        elif shape == 3:  # structure { null, <next level> }
+            body = bytes([2, 2, 0]) + body
+        else:  # structure { obis, <next level>, scaler-unit }
+            body = bytes([2, 3, 9, 6]) + obis_octets + body + bytes([2, 2, 15, 0, 22, 27])
+    return body
+
+
 @st.composite
 def case_st(draw):
-    tag = draw(st.sampled_from(["random", "truncation", "mutation", "mutation", "mutation", "ascii", "ascii", "ascii-long"]))
+    tag = draw(st.sampled_from(["random", "truncation", "mutation", "mutation", "mutation", "ascii", "ascii", "ascii-long", "nested", "digit-run"]))
     if tag == "random":
         payload = draw(st.binary(max_size=64) | st.binary(max_size=600))
     elif tag == "truncation":
@@ -239,6 +259,15 @@ def case_st(draw):
     elif tag == "mutation":
         base = GENUINE[draw(st.sampled_from(NAMES))][0]
         payload = _mutate(base, draw(st.lists(_op, min_size=1, max_size=5)))
+    elif tag == "nested":
+        depth = draw(st.sampled_from([3, 8, 12, 16, 20, 26, 40, 100]))
+        core = nested(depth, draw(st.integers(0, 4)), draw(st.sampled_from([b"\x06\x00\x00\x00\x01", b"\x00", b"\x0a\x01A", b"\x09\x0c" + bytes(12)])), draw(st.sampled_from([bytes([1, 0, 1, 7, 0, 0x7F]), bytes([1, 0, 1, 7, 0, 0xFF])])))
+        wrap = draw(st.sampled_from(["body-struct", "body-array", "frame"]))
+        payload = (bytes([2, 1]) + core) if wrap == "body-struct" else ((bytes([1, 1]) + core) if wrap == "body-array" else bytes.fromhex("e6e7000f4000000000") + bytes([2, 1]) + core)
+    elif tag == "digit-run":
+        n = draw(st.sampled_from([20, 30, 40, 64, 200]))
+        digits = "".join(draw(st.sampled_from(["4530", "0", "9", "123"])) for _ in range(n))[:n]
+        payload = (digits + draw(st.sampled_from(["W(1)", "(1)", ".(1)", "x", "-(1)", "*(1)", ":1.8.0(1)"])) + draw(st.sampled_from(["\r\n", ""]))).encode("ascii")
     elif tag == "ascii-long":  # long inputs: super-polynomial blow-ups show up here
         unit = "".join(draw(st.lists(_ascii_tok, min_size=1, max_size=5)))
         payload = (unit * draw(st.sampled_from([20, 100, 400])))[:6000].encode("ascii") + "".join(draw(st.lists(_ascii_tok, max_size=2))).encode("ascii")
@@ -250,6 +279,20 @@ def case_st(draw):
     return (tag, payload, prime, entry, mem)
 
 
+_HEADS = [b"\x00\x01", b"\x00\x00", b"\xe6\xe7", b"\xe6\xe6", b"\x02\x00", b"\x02\x01", b"\x01\x00", b"\x01\x01", b"\x0f\x00", b"\x09\x0c", b"/A", b"1.", b"\x7e\xa0", b"\xff\xff"]
+_FILLS = [b"\x00", b"\xff", b"\x01\x02\x03\x04\x05\x06\x07\x08\x09"]
+
+
+def short_payloads():
+    """Every (two-octet head, total length 0..12, fill) combination: the shortest messages, where header parsing can run off the end."""
+    out = [b""]
+    for h in _HEADS:
+        for n in range(1, 13):
+            for f in _FILLS:
+                out.append((h + f * 12)[:n])
+    return sorted(set(out))
+
+
 def exhaustive_truncations():
     return [(name, k) for name in NAMES for k in range(len(GENUINE[name][0]) + 1)]
 
@@ -258,6 +301,11 @@ def build() -> Check:
     from vlib.runner import EnumClause
 
     trunc = exhaustive_truncations()
+    shorts = short_payloads()
+
+    def short_case(i, tier):
+        p_, rest = shorts[i // (len(ENTRIES_ALL) * 8)], i % (len(ENTRIES_ALL) * 8)
+        return ("short", p_, (rest % 8) - 1, ENTRIES_ALL[rest // 8], False)
 
     def trunc_case(i, tier):
         name, k = trunc[i]
@@ -269,13 +317,14 @@ def build() -> Check:
         hang_is_violation=True,
         hang_limit_s=120.0,
         rule=(
-            "inputs: random bytes; truncations and 1..5 structured mutations (COSEM type tag replaced by another tag, length/count octet +-1 or "
+            "inputs: random bytes; COSEM structures/arrays nested 3..100 levels deep (five shapes); P1 addresses made of 20..200 digits without separators; truncations and 1..5 structured mutations (COSEM type tag replaced by another tag, length/count octet +-1 or "
             "set, OBIS octet changed, date-time octet set to 0xFF, insert/delete/overwrite) of every genuine message of the pool (33 "
             "fixtures + 8 generated, frame and body forms, P1 blocks); ASCII fragments from P1 tokens with unbalanced parentheses, trailing "
             "garbage, several '*', non-numeric values, also repeated 20..400 times (inputs up to 6 KB). Each with a remembered decoder drawn from {none, 0..6} (AutoDecoder primed with a "
             "genuine message of that decoder) and an entry point drawn from decode_message_payload, decode_message(DlmsMessage), "
             "decode_message(reader-produced HdlcFrame), decode_message(DataReadout). truncations: EVERY truncation of every pool message "
-            "(enumerated). Oracle: result is dict or None, no exception escapes, deterministic budgets hold: line events in han/ <= "
+            "(enumerated). short-payloads: EVERY combination of 14 two-octet heads x total length 0..12 x 3 fill patterns x 4 entry points x 8 "
+            "remembered-decoder states (enumerated). Oracle: result is dict or None, no exception escapes, deterministic budgets hold: line events in han/ <= "
             "5000+100n+n^2/4, Python calls <= 50000+3000n (sys.monitoring), CPU time <= 0.75 s + 2 ms*n (twice), tracemalloc peak <= 2 MiB + 8 KiB*n on all ASCII cases and a 1-in-20 "
             "sample. Non-trivial = mutated/truncated genuine message that some decoder grammar still parses (or that decodes), or an ASCII "
             "fragment containing a parenthesis. Failures are bucketed by (exception type, innermost han function). coverage-guided: atheris "
@@ -292,6 +341,7 @@ def build() -> Check:
         clauses=[
             HypClause("inputs", case_st, oracle, quick=16000, thorough=600000),
             EnumClause("truncations", size=lambda tier: len(trunc), case_at=trunc_case, oracle=oracle, doc="every truncation of every pool message"),
+            EnumClause("short-payloads", size=lambda tier: len(shorts) * len(ENTRIES_ALL) * 8, case_at=short_case, oracle=oracle, doc="every short payload (14 two-octet heads x lengths 0..12 x 3 fills) x 4 entry points x 8 remembered-decoder states"),
             FuzzClause("coverage-guided", "C15", oracle, quick=(2, 1500), thorough=(16, 120000), max_len=700, doc="atheris/libFuzzer campaigns on the same oracle (raw bytes -> remembered decoder, entry point, payload), empty and fixture corpora"),
         ],
     )
